@@ -1181,6 +1181,12 @@ class Interp:
                 guard_term = T("getitem", it.term.args[0], T("lv", lid))
                 it = V("range", T("range", self.api.dim_term(Dim(0)), self.api.dim_term(msh[0])), labels=it.labels, extra=(Dim(0), msh[0]))
         iter_term = it.term if it is not None else T("while")
+        if is_for and it is not None and (it.kind == "zip" or (it.kind == "enumerate" and it.items and it.items[0].kind == "zip")):
+            # for (a, b) in zip(x, y) / for k, (a, b) in enumerate(zip(x, y)): the passes are numbered 0 .. n-1 like
+            # those of `for k in range(n)`; the elements are x[k], y[k] (bound by loop_element)
+            n_zip = self.api.length_dim(self, it)
+            if n_zip is not None and n_zip.known():
+                iter_term = T("range", self.api.dim_term(Dim(0)), self.api.dim_term(n_zip))
         if is_for and it is not None and it.kind == "count":
             iter_term = const(True)  # an unbounded counter: the loop ends by break / return only, like `while True`
 
